@@ -361,10 +361,43 @@ def gen_movie(rng, tier, kind=None):
             tracks = [[p] * nfr for p in p0]
     percentile = 64
 
+    gain = [1.0] * nfr
+
     def render_all(amp_of):
-        return [G.render(shape, [(tr[t][0], tr[t][1], amp_of(i), sig) for i, tr in enumerate(tracks) if tr[t] is not None],
+        return [G.render(shape, [(tr[t][0], tr[t][1], amp_of(i) * gain[t], sig) for i, tr in enumerate(tracks) if tr[t] is not None],
                          G.noise_texture(rng, shape, noise_kind)) for t in range(nfr)]
     frames = None
+    fading = False
+    if kind == 'complete' and not signed and not mixed and noise_kind == 'none' and rng.random() < 0.45:
+        # illumination drift / photobleaching: the whole frame gets dimmer (or brighter) from frame to frame, so the
+        # brightness level that admits relocation candidates (a percentile of EACH frame) changes with the frame;
+        # longer movies, detections withheld early and late.  Calibrated with the implementation: nothing withheld ->
+        # complete tracks (otherwise the movie is not in the property's regime and the plain rendering is used)
+        f = rng.choice([0.72, 0.8, 0.6, 1.3])
+        extra = rng.randint(2, 4)
+        g2 = [f ** t for t in range(nfr + extra)]
+        top = max(g2)
+        g2 = [g / top for g in g2]
+        save = (nfr, [list(tr) for tr in tracks], gain)
+        for tr in tracks:
+            tr.extend([tr[-1]] * extra)              # the blobs rest during the added frames (moves stay within search_range)
+        nfr += extra
+        gain = g2
+        fr = render_all(lambda i: 250)
+        probe = dict(kind=kind, frames=fr, tracks=tracks, sr=sr, sep=sep, dia=dia, rad=rad, memory=mem, preprocess=pre,
+                     minmass=0, pw=0.0, wseed=0, noise=noise_kind, percentile=64)
+        ok = False
+        try:
+            got, _ = run_movie(probe, withhold=False)
+            ok = completeness(probe, got) is None
+        except Exception:
+            ok = False
+        if ok:
+            frames, fading, minmass = fr, True, 0
+            if pw == 0.0:
+                pw = 0.6
+        else:
+            nfr, tracks, gain = save
     if mixed:
         # calibrate with the implementation itself (nothing withheld, so relocation plays no part): at the lowered
         # percentile every blob must be tracked through the movie, at the default percentile a faint one must be missed
@@ -410,7 +443,7 @@ def gen_movie(rng, tier, kind=None):
             out.append(g)
         frames = out
     return dict(kind=kind, frames=frames, tracks=tracks, sr=sr, sep=sep, dia=dia, rad=rad, memory=mem, preprocess=pre,
-                minmass=minmass, pw=pw, wseed=rng.randint(0, 2 ** 30), noise=noise_kind, percentile=percentile, mixed=mixed)
+                minmass=minmass, pw=pw, wseed=rng.randint(0, 2 ** 30), noise=noise_kind, percentile=percentile, mixed=mixed, fading=fading)
 
 
 def run_movie(c, withhold=True):
@@ -661,6 +694,8 @@ def eval_movies(chk, movies, tag):
         nadded = sum(1 for t in rows if t >= 1 for x in rows[t] if (int(x['pos'][0]), int(x['pos'][1])) not in set(initial.get(t, dict(given=[]))['given']))
         nwith = sum(len(v['detected']) - len(v['given']) for t, v in initial.items() if t >= 1)
         chk.count(('movie', movie_json(c, rows, initial)), nadded >= 1)
+        if c.get('fading'):
+            chk.tally('movie with frame-to-frame brightness drift (%d frames)' % len(c['frames']))
         chk.tally('movie kind=%s' % c['kind']); chk.tally('percentile=%s%s' % (c.get('percentile', 64), ' (mixed brightness)' if c.get('mixed') else ''))
         chk.tally('movie: %s' % ('features re-found' if nadded else 'nothing added'))
         chk.tally('memory=%d' % c['memory'])
